@@ -19,7 +19,7 @@ from .common import muted, rng, stable_hash
 
 LEVEL = 'exploration'
 RULE = ('a case is one schedule for one adapter: (adapter in {Axi2Reg, Reg2Axi}, register width W in {8,32,64} plus {12,33} for the '
-        'ceil in the KEEP mask, stream width in {W rounded up to bytes, 64, 128}, 200 (quick) / 400-1000 (thorough) cycles of '
+        'ceil in the KEEP mask and {65,96,128,200,256,512}, stream width in {W rounded up to bytes, 64, 128, 256, 512} (for W>64: 128/256/512, Axi2Reg also with the register wider than the stream word), 200 (quick) / 400-1000 (thorough) cycles of '
         'ap_start/ap_reset/ap_done-wish/load_outs/peer VALID or READY/data, and a build history: adapter alone before the first getSimulator(), '
         'or (30%) added directly / one / two levels down to a system whose simulator already exists and has run, then getSimulator() again); schedules are concatenations of phases (idle, '
         'back-to-back burst, back-pressure stall, control storm, load storm, random with per-schedule rates) so that bursts, stalls, '
@@ -33,7 +33,9 @@ TIMEOUT = {'quick': 600, 'thorough': 3000}
 MIN_NONTRIVIAL = {'quick': 1000, 'thorough': 40000}
 
 SCHEDULES = {'quick': 500, 'thorough': 14000}      # per (adapter, width slot); see run_check
-WIDTHS = [8, 32, 64, 8, 32, 64, 12, 33]
+# register widths: the design's {8,32,64}, {12,33} for the ceil in the KEEP mask, and registers wider than 64 bits (with streams of
+# 128/256/512 bits: register wider than, equal to and narrower than the stream word)
+WIDTHS = [8, 32, 64, 65, 8, 32, 64, 128, 12, 33, 96, 512, 8, 64, 200, 256]
 
 
 # --------------------------------------------------------------------------- schedules
@@ -62,13 +64,21 @@ def _phase(rnd, base):
 
 
 def gen_schedule(rnd, dut, W, ncyc):
-    dw = rnd.choice([8 * math.ceil(W / 8), 64, 64, 128])
-    if dw < W:
-        dw = 64
+    if W <= 64:
+        dw = rnd.choice([8 * math.ceil(W / 8), 64, 64, 128, rnd.choice([256, 512])])
+        if dw < W:
+            dw = 64
+    elif dut == 'axi2reg':
+        dw = rnd.choice([128, 256, 512])        # the register may be wider than the stream word (missing bits read 0)
+    else:
+        dw = rnd.choice([d for d in (128, 256, 512) if d >= W])
     base = dict(start=rnd.choice([0.05, 0.3, 0.7]), reset=rnd.choice([0.0, 0.02, 0.1]), done=0.3,
                 load=rnd.choice([0.05, 0.3, 0.7]), hs=rnd.choice([0.05, 0.3, 0.7]))
     width = dw if dut == 'axi2reg' else W
     pool = [0, 1, (1 << width) - 1, 1 << (width - 1), (1 << W) - 1, rnd.getrandbits(width)]
+    if width > 64:
+        pool += [1 << 64, ((1 << width) - 1) ^ ((1 << 64) - 1), ((1 << width) - 1) ^ ((1 << (width // 2)) - 1)]   # bit 64, only bits >= 64, upper half only
+    pool = [v & ((1 << width) - 1) for v in pool]
     cyc = []
     while len(cyc) < ncyc:
         n, p = _phase(rnd, base)
